@@ -26,8 +26,21 @@ def _dir_table(chk, sq):
     chk.require(init is not None, "SquareLattice.__init__ not found")
     for n in ast.walk(init.node):
         if isinstance(n, ast.Assign) and A.text(n.targets[0]) == "self._dir":
+            v = n.value
+            # `dict(NAME)` / `NAME.copy()` / `NAME` of a module-level literal table
+            ref = None
+            if isinstance(v, ast.Call) and A.call_name(v) == "dict" and len(v.args) == 1 and isinstance(v.args[0], ast.Name) and not v.keywords:
+                ref = v.args[0].id
+            elif isinstance(v, ast.Call) and isinstance(v.func, ast.Attribute) and v.func.attr == "copy" and isinstance(v.func.value, ast.Name) and not v.args:
+                ref = v.func.value.id
+            elif isinstance(v, ast.Name):
+                ref = v.id
+            if ref is not None:
+                tops = [st.value for st in init.module.tree.body if isinstance(st, ast.Assign) and len(st.targets) == 1 and A.text(st.targets[0]) == ref]
+                if len(tops) == 1:
+                    v = tops[0]
             try:
-                return init, n, ast.literal_eval(n.value)
+                return init, n, ast.literal_eval(v)
             except Exception as e:
                 raise AnalysisError("SquareLattice._dir is not a literal table") from e
     raise AnalysisError("SquareLattice._dir assignment not found")
@@ -360,8 +373,15 @@ def run(chk):
     # (or, combined with the other coordinate, modulo a constant: checkerboard parity, sqrt3 x sqrt3 triangular cell);
     # an un-reduced coordinate is allowed only in the else-branch of a test on that axis' boundary type.
     PERIOD = {0: {"self.Nx", "self._dims[0]"}, 1: {"self.Ny", "self._dims[1]"}}
-    pd = [n for n in prog.module(GEO).tree.body if isinstance(n, ast.Assign) and A.text(n.targets[0]) == "_periodic_dict"]
-    chk.require(pd, "_periodic_dict table not found")
+    # the boundary-letter table is the module-level dict that SquareLattice.__init__ subscripts with `boundary` for self._periodic
+    sq_init = prog.cls(GEO, "SquareLattice").methods["__init__"]
+    tabname = None
+    for n in ast.walk(sq_init.node):
+        if isinstance(n, ast.Assign) and A.text(n.targets[0]).endswith("._periodic") and isinstance(n.value, ast.Subscript) and isinstance(n.value.value, ast.Name):
+            tabname = n.value.value.id
+    chk.require(tabname is not None, "SquareLattice.__init__: `self._periodic = <table>[boundary]` not found")
+    pd = [n for n in prog.module(GEO).tree.body if isinstance(n, ast.Assign) and A.text(n.targets[0]) == tabname]
+    chk.require(pd, f"boundary-letter table `{tabname}` not found")
     try:
         ptab = ast.literal_eval(pd[0].value)
     except Exception as e:
